@@ -39,7 +39,10 @@
      "none"            the code
      "bump_first_only" remove/remove_if/remove_all/add bump the generation of the first list only
      "seq_zero"        a reader that misses its cache re-derives the key at sequence number 0
-     "seq_zero_if_moved"  ... only when swap_remove moved the channel to another list slot        *)
+     "seq_zero_if_moved"  ... only when swap_remove moved the channel to another list slot
+     "rm_bump_first"   remove(id) bumps the write list's generation before it looks the id up, so
+                       removing an absent id leaves the two generations one apart
+     "open_hint_unchecked"  open's lookup trusts the cached slot without comparing the id       *)
 EXTENDS Naturals, Sequences, FiniteSets, TLC
 
 CONSTANTS Readers,     \* reader thread ids (1..N)
@@ -71,6 +74,15 @@ Targets(o, present) == CASE o[1] = "rm" -> {o[2]}
                          [] o[1] = "rmif" -> o[2]
                          [] o[1] = "clear" -> present
                          [] OTHER -> {}
+
+(* the lookup under the lock: `find(id, hint)` — the hinted slot is only used when it holds the id,
+   otherwise the list is searched; (mutant: `open` trusts a hinted slot that holds an open channel) *)
+Found(list, id, what, hint) ==
+   \/ id \in SeqSet(list)
+   \/ /\ Mutant = "open_hint_unchecked" /\ what = "open"
+      /\ hint >= 1 /\ hint <= Len(list) /\ Dir(list[hint]) = "open"
+
+SlotOf(list, id, hint) == IF id \in SeqSet(list) THEN IndexOf(list, id) ELSE hint
 
 (* the sequence number a reader's re-derived key starts at after a cache miss: the cached one *)
 ResumeAt(cached, oldIdx, newIdx) ==
@@ -109,6 +121,8 @@ ResumeAt(cached, oldIdx, newIdx) ==
              } else { idx := Len(chans[off]) + 1; lock[off] := W; };
           } else if (op[1] = "rm") {
              if (op[2] \notin SeqSet(chans[off])) {
+                \* (mutant: the generation of a non-empty list is bumped before the lookup)
+                if (Mutant = "rm_bump_first" /\ Len(chans[off]) > 0) { gen[off] := gen[off] + 1; };
                 removedDone := removedDone \cup {op[2]};
                 wres := Append(wres, "ok"); k := k + 1;
                 if (k <= Len(script)) { goto wop; } else { goto Done; };
@@ -191,7 +205,7 @@ ResumeAt(cached, oldIdx, newIdx) ==
              if (n < ROps) { goto rop; } else { goto Done; };
           };
   lk:     await lock[so] = NONE;                          \* lock, look up, unlock
-          if (tid \in SeqSet(chans[so])) {
+          if (Found(chans[so], tid, what, cidx)) {
              if (after) { bad := bad \cup {"used_after_remove"}; };
              if (what = "setup") {
                 ctx := Dir(tid); cid := tid; cgen := gen[so]; cseq := 0; seqs := <<>>; res := "ok";
@@ -199,11 +213,11 @@ ResumeAt(cached, oldIdx, newIdx) ==
              } else if (~rfail) {
                 \* key re-derived at the cached sequence number; the cache is refreshed
                 if (what = "seal") {
-                   seqs := Append(seqs, ResumeAt(cseq, cidx, IndexOf(chans[so], tid)));
-                   cseq := ResumeAt(cseq, cidx, IndexOf(chans[so], tid)) + 1;
+                   seqs := Append(seqs, ResumeAt(cseq, cidx, SlotOf(chans[so], tid, cidx)));
+                   cseq := ResumeAt(cseq, cidx, SlotOf(chans[so], tid, cidx)) + 1;
                 };
                 \* the hint only speeds the lookup up: the channel may have been moved by swap_remove
-                cgen := gen[so]; cidx := IndexOf(chans[so], tid); res := "ok";
+                cgen := gen[so]; cidx := SlotOf(chans[so], tid, cidx); res := "ok";
              } else { res := "fail"; };
           } else {
              if (tid \notin removalStarted) { bad := bad \cup {"lost_channel"}; };
@@ -298,10 +312,14 @@ wl1 == /\ pc[W] = "wl1"
                              /\ lock' = [lock EXCEPT ![off'] = W]
                              /\ pc' = [pc EXCEPT ![W] = "wb1"]
                              /\ UNCHANGED << wres, bad, k >>
-                  /\ UNCHANGED << removedDone, victims >>
+                  /\ UNCHANGED << gen, removedDone, victims >>
              ELSE /\ IF op[1] = "rm"
                         THEN /\ IF op[2] \notin SeqSet(chans[off'])
-                                   THEN /\ removedDone' = (removedDone \cup {op[2]})
+                                   THEN /\ IF Mutant = "rm_bump_first" /\ Len(chans[off']) > 0
+                                              THEN /\ gen' = [gen EXCEPT ![off'] = gen[off'] + 1]
+                                              ELSE /\ TRUE
+                                                   /\ gen' = gen
+                                        /\ removedDone' = (removedDone \cup {op[2]})
                                         /\ wres' = Append(wres, "ok")
                                         /\ k' = k + 1
                                         /\ IF k' <= Len(script)
@@ -312,7 +330,8 @@ wl1 == /\ pc[W] = "wl1"
                                         /\ victims' = {op[2]}
                                         /\ lock' = [lock EXCEPT ![off'] = W]
                                         /\ pc' = [pc EXCEPT ![W] = "wb1"]
-                                        /\ UNCHANGED << removedDone, wres, k >>
+                                        /\ UNCHANGED << gen, removedDone, wres, 
+                                                        k >>
                         ELSE /\ IF op[1] = "rmif"
                                    THEN /\ IF Len(chans[off']) = 0
                                               THEN /\ removedDone' = (removedDone \cup op[2])
@@ -335,9 +354,9 @@ wl1 == /\ pc[W] = "wl1"
                                         /\ lock' = [lock EXCEPT ![off'] = W]
                                         /\ pc' = [pc EXCEPT ![W] = "wb1"]
                                         /\ UNCHANGED << removedDone, wres, k >>
-                             /\ idx' = idx
+                             /\ UNCHANGED << gen, idx >>
                   /\ bad' = bad
-       /\ UNCHANGED << gen, chans, read_off, write_off, next_id, script, ever, 
+       /\ UNCHANGED << chans, read_off, write_off, next_id, script, ever, 
                        removalStarted, table, op, id, roff, n, what, ctx, tid, 
                        cid, cgen, cseq, cidx, so, after, rfail, seqs, res >>
 
@@ -476,7 +495,7 @@ e2(self) == /\ pc[self] = "e2"
 
 lk(self) == /\ pc[self] = "lk"
             /\ lock[so[self]] = NONE
-            /\ IF tid[self] \in SeqSet(chans[so[self]])
+            /\ IF Found(chans[so[self]], tid[self], what[self], cidx[self])
                   THEN /\ IF after[self]
                              THEN /\ bad' = (bad \cup {"used_after_remove"})
                              ELSE /\ TRUE
@@ -491,13 +510,13 @@ lk(self) == /\ pc[self] = "lk"
                                   /\ cidx' = [cidx EXCEPT ![self] = IndexOf(chans[so[self]], tid[self])]
                              ELSE /\ IF ~rfail[self]
                                         THEN /\ IF what[self] = "seal"
-                                                   THEN /\ seqs' = [seqs EXCEPT ![self] = Append(seqs[self], ResumeAt(cseq[self], cidx[self], IndexOf(chans[so[self]], tid[self])))]
-                                                        /\ cseq' = [cseq EXCEPT ![self] = ResumeAt(cseq[self], cidx[self], IndexOf(chans[so[self]], tid[self])) + 1]
+                                                   THEN /\ seqs' = [seqs EXCEPT ![self] = Append(seqs[self], ResumeAt(cseq[self], cidx[self], SlotOf(chans[so[self]], tid[self], cidx[self])))]
+                                                        /\ cseq' = [cseq EXCEPT ![self] = ResumeAt(cseq[self], cidx[self], SlotOf(chans[so[self]], tid[self], cidx[self])) + 1]
                                                    ELSE /\ TRUE
                                                         /\ UNCHANGED << cseq, 
                                                                         seqs >>
                                              /\ cgen' = [cgen EXCEPT ![self] = gen[so[self]]]
-                                             /\ cidx' = [cidx EXCEPT ![self] = IndexOf(chans[so[self]], tid[self])]
+                                             /\ cidx' = [cidx EXCEPT ![self] = SlotOf(chans[so[self]], tid[self], cidx[self])]
                                              /\ res' = [res EXCEPT ![self] = "ok"]
                                         ELSE /\ res' = [res EXCEPT ![self] = "fail"]
                                              /\ UNCHANGED << cgen, cseq, cidx, 
